@@ -132,3 +132,25 @@ Proof.
   rewrite <- (firstn_skipn k i) in Hoff. rewrite offs_app in Hoff by lia. rewrite HLp in Hoff.
   lia.
 Qed.
+
+(* ---- a gather of the consecutive first-axis indices b, b+1, ..., b+n-1 is the slice [b, b+n) -- *)
+Lemma firstn_add_split {A} (a : nat) : forall (b : nat) (l : list A),
+  firstn (a + b) l = firstn a l ++ firstn b (skipn a l).
+Proof.
+  induction a as [|a IH]; intros b l; [reflexivity|].
+  destruct l as [|x l]; cbn [Nat.add firstn skipn app]; [destruct b; reflexivity | rewrite IH; reflexivity].
+Qed.
+
+Lemma c_gather_consecutive {A} (d : dims) (flat : list A) (n : nat) : forall (b : nat),
+  0 <= size (tl d) ->
+  gather d flat (map Z.of_nat (seq b n)) =
+  segment (Z.of_nat b * size (tl d)) (Z.of_nat n * size (tl d)) flat.
+Proof.
+  unfold gather. set (row := size (tl d)). intros b Hrow.
+  revert b. induction n as [|n IH]; intros b.
+  - cbn [seq map flat_map]. unfold segment. rewrite Z.mul_0_l. reflexivity.
+  - cbn [seq map flat_map]. rewrite IH. unfold segment.
+    assert (E1 : Z.to_nat (Z.of_nat (S b) * row) = (Z.to_nat (Z.of_nat b * row) + Z.to_nat row)%nat) by nia.
+    assert (E2 : Z.to_nat (Z.of_nat (S n) * row) = (Z.to_nat row + Z.to_nat (Z.of_nat n * row))%nat) by nia.
+    rewrite E1, E2, <- skipn_skipn_add, firstn_add_split. reflexivity.
+Qed.
